@@ -305,6 +305,57 @@ func compareCodec(c *Ctx, id, name string, enc, dec *ssa.Function, slot int64, f
 		}
 	}
 	R.Check(same, id, key+"encode/decode sequences agree", P.Pos(dec.Pos()), fmt.Sprintf("%s and %s perform the same (kind, field) sequence", FuncName(enc), FuncName(dec)), "sequences: "+strings.Join(es2, " "), "encoder "+strings.Join(es2, " ")+" vs decoder "+strings.Join(ds2, " "))
+	// no early answer: once the decoder has started to read, every return follows all of its reading operations - a
+	// return in between hands back an object made up from part of the bytes (a slot "recognised" as free from its
+	// length word alone), which the encoder's side of the sequence never produces
+	{
+		var dops []ssa.Instruction
+		for _, b := range dec.Blocks {
+			for _, in := range b.Instrs {
+				cl, ok := in.(*ssa.Call)
+				if !ok {
+					continue
+				}
+				cal := staticCallee(cl)
+				if cal == nil {
+					continue
+				}
+				if pk := funcPkg(cal); pk != nil && strings.HasSuffix(pk.Path(), "tchajed/marshal") && strings.HasPrefix(cal.Name(), "Get") {
+					dops = append(dops, in)
+				} else if cal != dec && IsRepoFunc(cal) && cal.Blocks != nil {
+					if hops, _, _ := codecOpsD(cal, 1, -1); len(hops) > 0 {
+						dops = append(dops, in)
+					}
+				}
+			}
+		}
+		okAll, nRet := true, 0
+		for _, b := range dec.Blocks {
+			ret, isR := b.Instrs[len(b.Instrs)-1].(*ssa.Return)
+			if !isR {
+				continue
+			}
+			started := false
+			for _, d := range dops {
+				if reachableFrom(d, ret) {
+					started = true
+				}
+			}
+			if !started {
+				continue // a refusal before anything was read (a buffer of the wrong length)
+			}
+			nRet++
+			for _, d := range dops {
+				d := d
+				if !MustBefore(dec, func(in ssa.Instruction) bool { return in == d })(ret) {
+					okAll = false
+				}
+			}
+		}
+		if len(dops) > 0 {
+			R.Check(okAll && nRet > 0, id, key+"decoder answers only after reading everything", P.Pos(dec.Pos()), "every return of the decoder that follows a read follows all of its reads", fmt.Sprintf("%d reads, %d returns", len(dops), nRet), "the decoder can return after reading only part of the record: the object it hands back is made up (e.g. a slot taken for free because its length word is 0) - what was encoded is not what is decoded, the running server (cache) and a restarted one (disk) disagree")
+		}
+	}
 	if slot > 0 {
 		var total int64
 		varw := false
